@@ -123,11 +123,24 @@ type trackedBody struct {
 	lastRead  atomic.Int64 // unix nano of the last Read
 	afterStop atomic.Int64 // Reads after markStop()
 	stopped   atomic.Bool
+
+	// a producer that stalls: once stallAt bytes have been delivered Read blocks until the body is
+	// closed (like an io.Pipe whose writer has gone quiet) - Close is the only thing that wakes it
+	stallAt  int64
+	wake     chan struct{}
+	wakeOnce sync.Once
+	inRead   atomic.Int64 // goroutines currently inside Read
 }
 
-func newTrackedBody(size int64) *trackedBody { return &trackedBody{size: size} }
+func newTrackedBody(size int64) *trackedBody {
+	return &trackedBody{size: size, wake: make(chan struct{})}
+}
+
+func (b *trackedBody) release() { b.wakeOnce.Do(func() { close(b.wake) }) }
 
 func (b *trackedBody) Read(p []byte) (int, error) {
+	b.inRead.Add(1)
+	defer b.inRead.Add(-1)
 	b.reads.Add(1)
 	b.lastRead.Store(time.Now().UnixNano())
 	if b.stopped.Load() {
@@ -137,10 +150,17 @@ func (b *trackedBody) Read(p []byte) (int, error) {
 		return 0, errors.New("read on closed request body")
 	}
 	o := b.off.Load()
+	if b.stallAt > 0 && o >= b.stallAt {
+		<-b.wake
+		return 0, errors.New("request body producer gave up (body closed)")
+	}
 	if o >= b.size {
 		return 0, io.EOF
 	}
 	n := int64(len(p))
+	if b.stallAt > 0 && n > b.stallAt-o {
+		n = b.stallAt - o
+	}
 	if n > 16384 {
 		n = 16384
 	}
@@ -153,7 +173,7 @@ func (b *trackedBody) Read(p []byte) (int, error) {
 	b.off.Add(n)
 	return int(n), nil
 }
-func (b *trackedBody) Close() error { b.closes.Add(1); return nil }
+func (b *trackedBody) Close() error { b.closes.Add(1); b.release(); return nil }
 func (b *trackedBody) markStop()    { b.stopped.Store(true) }
 
 // ---------- error classes (projection compared with the model; NOT the oracle) ----------
